@@ -1,7 +1,7 @@
 SPECIFICATION Spec
 CONSTANTS
- Modes = {0, 420, 384, 511, 2541, 1444, 932, 4095}
- KindSet = {"reg", "lnk_reg", "lnk_dangling", "fifo", "dir", "missing"}
+ Modes = {0, 420, 511, 2541, 1444, 4095}
+ KindSet = {"reg", "lnk_reg", "lnk_dangling", "fifo", "dir", "missing", "stdin"}
  DstSet = {"none", "reg", "dir"}
  NlinkSet = {1, 2}
  OpModes = {"compress", "decompress"}
@@ -15,8 +15,10 @@ CONSTANTS
  OwnSet = {TRUE}
  GrpSet = {TRUE, FALSE}
  ChmodSet = {TRUE}
- NoWarnSet = {TRUE, FALSE}
+ TailSet = {"data", "hole", "allhole"}
+ NoSparseSet = {TRUE, FALSE}
+ NoWarnSet = {FALSE}
 INVARIANTS NoOverwrite OldTargetGone NonRegularNeverWritten StrictRefusal ModeSafe ModeNoSpecial ModeExact
- ModeRestricted OwnerGroupTimes KeepKeeps RemovedOnlyOnSuccess RemovedOnSuccess ExitOK CreateExclusive
+ ModeRestricted OwnerGroupTimes KeepKeeps RemovedOnlyOnSuccess RemovedOnSuccess ExitOK CreateExclusive NoWriteAfterTimes HoleFinished StdinTouchesNothing
 PROPERTY Terminates
 CHECK_DEADLOCK FALSE
